@@ -1,7 +1,7 @@
 (* StyleDecl.v -- CSSStyleDeclaration as an ordered item sequence (property C11).
 
-   Transcription of /repo/src/css_parser/css/cssstyledeclaration.py (line numbers of the tree after the
-   two fix: commits of C11) and of the name plumbing of cssproperties.py.  Definitions only.
+   Transcription of /repo/src/css_parser/css/cssstyledeclaration.py (tree after the
+   three fix: commits of C11) and of the name plumbing of cssproperties.py.  Definitions only.
 
    What is abstract:
    * `norm` = Base._normalize (helper.normalize): a Section variable, so every theorem holds for any
@@ -201,7 +201,10 @@ Section Model.
     | ByName a v pr =>
         match build raising a v pr with
         | BRaise => Raised ESyntax
-        | BProp wf p => go (raw a) wf p
+        | BProp wf p =>
+            (* fix C11-set-name-as-stored: if newp.wellformed and self._normalize(name) != newp.name:
+               name = newp.literalname   -- the property is replaced under the name it is stored with *)
+            go (if wf && negb (eqs (norm (raw a)) (name p)) then lit p else raw a) wf p
         end
     end.
 
